@@ -154,10 +154,12 @@ def _check_bisect(case):
                 ref_arr, qq, int(got), want), "len{}".format(min(len(ref_arr), 3))))
     # vector form: whole vector, every single query, a sub-vector
     vec_sets = [list(range(len(qs)))] + [[i] for i in range(len(qs))] + [list(range(0, len(qs), 2))]
-    for idxs in vec_sets:
+    whole = [i for i in range(len(qs)) if float(qs[i]) == int(qs[i]) and abs(qs[i]) < 2 ** 40]
+    vec_sets = [(ix, np.float64) for ix in vec_sets] + ([(whole, np.int64)] if whole else [])   # whole-number queries also as an integer array
+    for idxs, qdtype in vec_sets:
         if not idxs:
             continue
-        qv = np.asarray([qs[i] for i in idxs], dtype=np.float64)
+        qv = np.asarray([qs[i] for i in idxs], dtype=qdtype)
         try:
             gv = deutil.search_bisection_vec(arr, qv)
             gv = [int(g) for g in np.asarray(gv).reshape(-1)]
